@@ -21,7 +21,18 @@ hdr = ("Changes produced by fresh sub-agents that saw only the property text and
        "(`-hand-`). Each was confirmed in a scratch worktree (builds, baseline suite green, its demonstration fails with it and passes "
        "without it), then applied to /repo, the named quick checks were run, and /repo was restored. `meta.json` in each directory has the details.\n\n"
        "| id | change | confirmed | detected by (rules) | ran clean (missed) | note |\n|---|---|---|---|---|---|\n")
-table = hdr + "\n".join(rows) + "\n"
+# summary
+metas = [json.load(open(f)) for f in sorted(glob.glob(os.path.join(V, "seeded", "*", "meta.json")))]
+conf = [m for m in metas if m.get("confirmed")]
+own = [m for m in conf if m["property"] in m.get("detected_by", [])]
+other = [m for m in conf if m.get("detected_by") and m["property"] not in m["detected_by"]]
+none = [m for m in conf if not m.get("detected_by")]
+summary = ("\n**Summary of the last regression sweep** (`tools/reeval.py`, every stored change applied to /repo in turn, quick tier): "
+           "%d confirmed changes; %d detected by the check of their own property, %d only by the check of a neighbouring property (%s), "
+           "%d by none (%s - each with the reason in the note column).\n"
+           % (len(conf), len(own), len(other), ", ".join("%s by %s" % (m["id"], "/".join(m["detected_by"])) for m in other),
+              len(none), ", ".join(m["id"] for m in none)))
+table = hdr + "\n".join(rows) + "\n" + summary
 p = os.path.join(V, "DESIGN.md")
 s = open(p).read()
 s = re.sub(r"<!-- SEEDED-TABLE-BEGIN -->.*?<!-- SEEDED-TABLE-END -->", "<!-- SEEDED-TABLE-BEGIN -->\n" + table + "<!-- SEEDED-TABLE-END -->", s, flags=re.S)
